@@ -14,6 +14,7 @@ import re
 import shutil
 import subprocess
 import tempfile
+import threading
 
 from . import common
 from .common import Inconclusive
@@ -154,12 +155,16 @@ def lane_miri(res, tier):
         return
     nsh = 16
     if tier == "quick":
-        plan = [("c04", s) for s in range(nsh)] + [("c02", s) for s in range(0, nsh, 2)]
+        # the longer c02 jobs first (shard 15 is the table comparison), then ten short c04 jobs
+        # (sixteen jobs = one wave on sixteen cores; the c04 shards chosen cover all eight input kinds)
+        plan = [("c02", s) for s in (15, 0, 3, 6, 9, 12)] + [("c04", s) for s in (0, 1, 2, 3, 4, 5, 6, 7, 11, 15)]
         seeds = [common.SEED]
     else:
-        plan = [(c, s) for c in ("c04", "c02", "c01", "c03", "c06", "c07", "c11", "c12", "c05") for s in range(nsh)]
+        # the workloads that reach the crates containing `unsafe` (parser, strip adapters, colour renderer); the git and
+        # LS_COLORS parsers are safe code throughout and are only driven by the c04 workload here
+        plan = [(c, s) for c in ("c07", "c05", "c02", "c01", "c06", "c03", "c04") for s in range(nsh)]
         seeds = [common.SEED, common.SEED + 1000]
-    jobs = [(c, s, sd) for sd in seeds for (c, s) in plan]
+    jobs = [(c, s, sd) for sd in seeds for (c, s) in plan if sd == common.SEED or c in ("c04", "c02")]
 
     def one(job):
         check, shard, seed = job
@@ -247,11 +252,47 @@ def lane_memcheck(res, tier):
     res.lanes.append({"lane": "memcheck:canary", "verdict": "held", "observed": {"canary_invalid_read_reported": True}})
 
 
+class _Locked:
+    """The lanes run side by side (each has its own build directory and binary); the shared result object is only
+    touched through this proxy, one call at a time."""
+
+    def __init__(self, res):
+        self._res = res
+        self._lock = threading.RLock()
+
+    def __getattr__(self, name):
+        a = getattr(self._res, name)
+        if not callable(a):
+            return a
+        lock = self._lock
+
+        def call(*args, **kw):
+            with lock:
+                return a(*args, **kw)
+        return call
+
+
 def run(res, tier):
-    lane_native(res, tier, "release")
-    lane_native(res, tier, "debug")
-    lane_asan(res, tier)
-    lane_miri(res, tier)
+    common.harness_dir()
+    shared = _Locked(res)
+
+    def native():
+        lane_native(shared, tier, "release")
+        lane_native(shared, tier, "debug")
+
+    with cf.ThreadPoolExecutor(max_workers=3) as ex:
+        futs = [ex.submit(native), ex.submit(lane_asan, shared, tier), ex.submit(lane_miri, shared, tier)]
+        errs = []
+        for f in futs:
+            try:
+                f.result()
+            except Exception as e:  # noqa  (an Inconclusive of one lane must not hide what the others saw)
+                errs.append(e)
+    for e in errs:
+        if isinstance(e, Inconclusive):
+            res.add_inconclusive("lane", str(e))
+        else:
+            raise e
     if tier == "thorough":
         lane_memcheck(res, tier)
     res.samples.append({"lanes": "rel, dbg (debug assertions + overflow checks), asan, miri" + (", memcheck" if tier == "thorough" else ""),
